@@ -15,7 +15,7 @@ From ZI Require Export Tie.RegCommon Model.Components Spec.Components.
 Inductive cq :=
 | QUtil (p : spec) (n : name) (ans : option nat)
 | QUtilsFor (p : spec) (ans : list (name * nat))                 (* sorted by name *)
-| QAllUtils (p : spec) (ans : list nat)                          (* in the order returned *)
+| QAllUtils (p : spec) (ans : list (nat * nat))                  (* (identity, class), in the order returned *)
 | QAdapter (o : cobj) (p : spec) (n : name) (ans : option nat)
 | QMulti (os : list cobj) (p : spec) (n : name) (ans : option nat)
 | QGetAdapters (os : list cobj) (p : spec) (ans : list (name * nat))   (* sorted by name *)
@@ -74,12 +74,12 @@ Section Answers.
     match q with
     | QUtil p n _ => QUtil p n (option_map vid (queryUtility W st p n))
     | QUtilsFor p _ => QUtilsFor p (sort_pairs (map (fun nv => (fst nv, vid (snd nv))) (getUtilitiesFor W st p)))
-    | QAllUtils p _ => QAllUtils p (map vid (getAllUtilitiesRegisteredFor W st p))
+    | QAllUtils p _ => QAllUtils p (map (fun v => (vid v, veq v)) (getAllUtilitiesRegisteredFor W st p))
     | QAdapter o p n _ => QAdapter o p n (queryAdapter W call st o p n)
     | QMulti os p n _ => QMulti os p n (queryMultiAdapter W call st os p n)
     | QGetAdapters os p _ => QGetAdapters os p (sort_pairs (getAdapters W call st os p))
     | QSubscribers os p _ _ =>
-        let '(res, called) := subscribers W call st os p in QSubscribers os p res (map vid called)
+        let '(res, called) := subscribersOf W call st os p in QSubscribers os p res (map vid called)
     | QHandle os _ => QHandle os (map vid (handle W st os))
     end.
 
@@ -88,7 +88,7 @@ Section Answers.
     match a, b with
     | QUtil p n x, QUtil p' n' y => Nat.eqb p p' && Nat.eqb n n' && onat_eqb x y
     | QUtilsFor p x, QUtilsFor p' y => Nat.eqb p p' && pairs_eqb x y
-    | QAllUtils p x, QAllUtils p' y => Nat.eqb p p' && list_eqb Nat.eqb x y
+    | QAllUtils p x, QAllUtils p' y => Nat.eqb p p' && pairs_eqb x y
     | QAdapter o p n x, QAdapter o' p' n' y => cobj_eqb o o' && Nat.eqb p p' && Nat.eqb n n' && onat_eqb x y
     | QMulti os p n x, QMulti os' p' n' y => list_eqb cobj_eqb os os' && Nat.eqb p p' && Nat.eqb n n' && onat_eqb x y
     | QGetAdapters os p x, QGetAdapters os' p' y => list_eqb cobj_eqb os os' && Nat.eqb p p' && pairs_eqb x y
@@ -128,7 +128,7 @@ Section Answers.
     match q with
     | QUtil p n a => q_queryUtility W L p n a
     | QUtilsFor p a => q_getUtilitiesFor W L p a
-    | QAllUtils p a => q_getAllUtilities W L p a
+    | QAllUtils p a => q_getAllUtilities W L p (map snd a)
     | QAdapter o p n a => q_queryMultiAdapter W call L [o] p n a
     | QMulti os p n a => q_queryMultiAdapter W call L os p n a
     | QGetAdapters os p a => q_getAdapters W call L os p a
